@@ -1,6 +1,7 @@
 package main
 
 import (
+	"fmt"
 	"go/token"
 	"go/types"
 	"strings"
@@ -238,4 +239,104 @@ func isBnum(t types.Type) bool {
 	}
 	b, ok := t.Underlying().(*types.Basic)
 	return ok && b.Kind() == types.Uint64
+}
+
+// ruleBlindBlock: a data block may be replaced as a whole, without being read
+// first, only when the request supplies the whole block.  A partial write that
+// builds "the rest" itself (from zeroes, because the block is believed to be
+// new) destroys bytes acknowledged earlier whenever that belief is wrong - and
+// bmap's "allocated" answer is not exact (it is true for every block of the
+// doubly indirect range).
+func ruleBlindBlock(c *Ctx, id string) {
+	V, P, R := c.V, c.P, c.R
+	R.Rule(id, "blind whole-block writes only for whole blocks: in Inode.Write every jrnl.OverWrite of NBITBLOCK bits is dominated by 'bytes to copy == BlockSize'; every other path modifies the block read through the journal", 1)
+	w := V.InodeWrite
+	if w == nil || V.OverWrite == nil {
+		return
+	}
+	bs := constOfPkg(P, "github.com/goose-lang/primitive/disk", "BlockSize")
+	n := 0
+	wsc := scopesOf(w)
+	for _, sc := range wsc {
+		for _, call := range P.CallsIn(sc.Fn, funcIs(V.OverWrite)) {
+			if k, isk := constInt(argN(call, 1)); !isk || k != bs*8 {
+				continue
+			}
+			n++
+			g := guardedUp(wsc, sc, call.Block(), func(sub Subst) func(Cond) (bool, bool) {
+				return func(cd Cond) (bool, bool) {
+					if cd.X == nil || cd.Y == nil || (cd.Op != token.EQL && cd.Op != token.NEQ) {
+						return false, false
+					}
+					for _, pr := range [][2]ssa.Value{{cd.X, cd.Y}, {cd.Y, cd.X}} {
+						if k, isk := constInt(pr[1]); isk && k == bs {
+							if _, isC := pr[0].(*ssa.Const); !isC {
+								return true, cd.Op == token.EQL
+							}
+						}
+					}
+					return false, false
+				}
+			})
+			R.Check(g, id, fmt.Sprintf("inode.Write|whole-block OverWrite#%d only for a whole block", n), P.Pos(call.Pos()), "the block is overwritten without being read only when BlockSize bytes are supplied for it", "dominated by <bytes> == BlockSize", "a partial write replaces the whole block (the part it does not supply is made up, e.g. zeroes for a block believed to be new): bytes of that block acknowledged earlier are lost - bmap's 'allocated' answer is true for every block of the doubly indirect range")
+		}
+	}
+	if n == 0 {
+		R.Pass(id, "inode.Write|no blind block write", P.Pos(w.Pos()), "Inode.Write never overwrites a block without reading it", "no whole-block OverWrite")
+	}
+}
+
+// ruleShrinkReserve: Shrink frees blocks until the transaction is nearly as
+// large as the log.  The test "NDirty() + k < LogBlocks" is made before each
+// round; k must cover what one more round and the end of the transaction can
+// still add: the freed data block, an indirect and a doubly indirect block
+// that become free with it, the inode's block, and the block-bitmap blocks the
+// freed bits fall into (two when the range crosses a bitmap-block boundary): the
+// authors' own count is 5.  With less, a shrink transaction can be one block
+// larger than the log; the journal refuses it on every retry: the shrinker
+// thread panics and the truncation can never be finished.
+func ruleShrinkReserve(c *Ctx, id string) {
+	V, P, R := c.V, c.P, c.R
+	R.Rule(id, "a shrink transaction fits in the log: the round test of Inode.Shrink is NDirty() + k < LogBlocks with k >= 5 (data block, indirect, doubly indirect, inode, and the bitmap blocks of the freed bits)", 1)
+	if V.Shrink == nil {
+		return
+	}
+	lb := constOfPkg(P, jrnlPath+"/jrnl", "LogBlocks")
+	n := 0
+	for _, sc := range scopesOf(V.Shrink) {
+		for _, b := range sc.Fn.Blocks {
+			for _, in := range b.Instrs {
+				bo, ok := in.(*ssa.BinOp)
+				if !ok || bo.Op != token.LSS {
+					continue
+				}
+				if k, isk := constInt(sc.S.resolve(bo.Y)); !isk || k != lb {
+					continue
+				}
+				add, ok := stripConv(bo.X).(*ssa.BinOp)
+				if !ok || add.Op != token.ADD {
+					continue
+				}
+				var kres int64 = -1
+				for _, pr := range [][2]ssa.Value{{add.X, add.Y}, {add.Y, add.X}} {
+					cl, isC := stripConv(pr[0]).(*ssa.Call)
+					if !isC || cl.Call.StaticCallee() == nil || cl.Call.StaticCallee().Name() != "NDirty" {
+						continue
+					}
+					if k, isk := constInt(sc.S.resolve(pr[1])); isk {
+						kres = k
+					}
+				}
+				if kres < 0 {
+					continue
+				}
+				n++
+				R.Analysed[FuncName(sc.Fn)] = true
+				R.Check(kres >= 5, id, "inode.Shrink|log reserve per round", P.Pos(in.Pos()), fmt.Sprintf("the round test keeps %d blocks of the log free for what the round and the end of the transaction still add", kres), "k >= 5", fmt.Sprintf("the reserve is %d blocks: a shrink transaction can reach LogBlocks+1 blocks (e.g. freed blocks on both sides of a bitmap-block boundary); the journal refuses it on every retry, the shrinker thread panics and WRITE/SETATTR on that file fail for ever", kres))
+			}
+		}
+	}
+	if n == 0 {
+		R.Undecided(id, "inode.Shrink|log reserve per round", P.Pos(V.Shrink.Pos()), "Shrink bounds its transaction by NDirty() + k < LogBlocks", "no test of that form found in Shrink or its helpers: how the shrink transaction is kept within the log is not decided")
+	}
 }
